@@ -198,6 +198,35 @@ def ofAngleAxis (angle : K) (axis : V3 K) : Quat K :=
   let s := Scalar.sin ha
   ⟨s * axis.x, s * axis.y, s * axis.z, Scalar.cos ha⟩
 def toList (q : Quat K) : List K := [q.x, q.y, q.z, q.w]
+
+/-- `Quaternion(rotation matrix)`: `quaternionbase_assign_impl<…,3,3>::run` (Eigen 3.4). -/
+def ofRot (m : M3 K) : Quat K :=
+  let t := m.trace
+  if Scalar.gt t (nat 0) then
+    let t := Scalar.sqrt (t + nat 1)
+    let w := rat 1 2 * t
+    let t := rat 1 2 / t
+    ⟨(m.a21 - m.a12) * t, (m.a02 - m.a20) * t, (m.a10 - m.a01) * t, w⟩
+  else
+    -- i = argmax of the diagonal (first maximum wins as in the source)
+    let i : Nat := if Scalar.gt m.a11 m.a00 then 1 else 0
+    let dii : K := if i = 1 then m.a11 else m.a00
+    let i : Nat := if Scalar.gt m.a22 dii then 2 else i
+    let g (r c : Nat) : K :=
+      match r, c with
+      | 0, 0 => m.a00 | 0, 1 => m.a01 | 0, 2 => m.a02
+      | 1, 0 => m.a10 | 1, 1 => m.a11 | 1, 2 => m.a12
+      | 2, 0 => m.a20 | 2, 1 => m.a21 | _, _ => m.a22
+    let j := (i + 1) % 3
+    let k := (j + 1) % 3
+    let t := Scalar.sqrt (g i i - g j j - g k k + nat 1)
+    let ci := rat 1 2 * t
+    let t := rat 1 2 / t
+    let w := (g k j - g j k) * t
+    let cj := (g j i + g i j) * t
+    let ck := (g k i + g i k) * t
+    let comp (n : Nat) : K := if n = i then ci else if n = j then cj else ck
+    ⟨comp 0, comp 1, comp 2, w⟩
 end Quat
 
 end Manif
